@@ -26,3 +26,7 @@ check("C01", "other",
       "symbolic row values, literals and slice bounds; every path of every program shape (depth 1-2 exhaustive over templates, "
       "deeper curated; every leaf length up to N; sequence/mapping payloads; exact/loose declared bounds; chains, "
       "materializations, iteration-to-iteration transfers) is compared by z3 with the oracle's ordered row list.", BSV, "3/C01")
+check("C16", "other",
+      "Bounded symbolic verification: Diagnostics.run executes on trees of both engines with a harness executor that returns the "
+      "symbolic truth, so the real code forks; z3 decides doomed <=> no rows (with executor) / doomed => no rows (without) for all "
+      "leaf contents within the slot bound.", BSV, "3/C16")
